@@ -79,7 +79,7 @@ func loadWorkspace(repo, verif string, patterns []string) (*Workspace, error) {
 	if len(w.loadErrs) > 0 {
 		return nil, fmt.Errorf("the repository does not type-check: %s", strings.Join(w.loadErrs[:min(3, len(w.loadErrs))], "; "))
 	}
-	prog, _ := ssautil.AllPackages(pkgs, ssa.InstantiateGenerics)
+	prog, _ := ssautil.AllPackages(pkgs, ssa.InstantiateGenerics|ssa.GlobalDebug)
 	prog.Build()
 	w.prog = prog
 	w.pkgs = pkgs
@@ -290,12 +290,41 @@ func (g *Gen) theoryText() string {
 	for _, n := range names {
 		visit(n)
 	}
+	opaque := map[string]bool{}
+	if g.contract != nil {
+		for _, o := range g.contract.Opaque {
+			opaque[o] = true
+		}
+	}
 	var b strings.Builder
 	for _, n := range order {
-		fmt.Fprintf(&b, "; ---- theory %s\n%s\n", n, strMacroRe.ReplaceAllStringFunc(g.w.theory[n].Text, func(m string) string {
+		text := strMacroRe.ReplaceAllStringFunc(g.w.theory[n].Text, func(m string) string {
 			sm := strMacroRe.FindStringSubmatch(m)
 			return strLit(sm[1])
-		}))
+		})
+		if len(opaque) > 0 {
+			text = hideDefinitions(text, opaque)
+		}
+		fmt.Fprintf(&b, "; ---- theory %s\n%s\n", n, text)
+	}
+	return b.String()
+}
+
+// hideDefinitions turns (define-fun f (args) R body) into (declare-fun f (sorts) R) for the given names.
+func hideDefinitions(text string, names map[string]bool) string {
+	var b strings.Builder
+	for _, f := range splitTopLevelForms(text) {
+		sx, _, err := parseSexp(f, 0)
+		if err == nil && sx.IsL && len(sx.List) == 5 && (sx.List[0].Atom == "define-fun" || sx.List[0].Atom == "define-fun-rec") && names[sx.List[1].Atom] {
+			var sorts []string
+			for _, a := range sx.List[2].List {
+				sorts = append(sorts, a.List[1].String())
+			}
+			fmt.Fprintf(&b, "(declare-fun %s (%s) %s) ; definition hidden (opaque)\n", sx.List[1].Atom, strings.Join(sorts, " "), sx.List[3].String())
+			continue
+		}
+		b.WriteString(f)
+		b.WriteString("\n")
 	}
 	return b.String()
 }
